@@ -140,7 +140,7 @@ theorem Sub.split {d : List UInt8} {c e L : Nat} (h : Sub d c e)
 /-! ## the two checks of the decoder -/
 
 section
-variable [BEq H] [LawfulBEq H] {hf : HashFns H} {d : List UInt8}
+variable {hf : HashFns H} {d : List UInt8}
 
 theorem TrueCv.root (hf : HashFns H) (d : List UInt8) : TrueCv hf d (Spec.root hf d) :=
   ⟨0, _, true, Sub.root d, rfl⟩
@@ -209,6 +209,8 @@ theorem StackOk.push2 {st : List H} {l r : H} (hs : StackOk hf d st) (hl : TrueC
     · exact hs x hx
 
 /-! ## one decoder step -/
+
+variable [BEq H] [LawfulBEq H]
 
 theorem eq_of_not_bne {a b : H} (h : ¬ (a != b) = true) : a = b := by simpa using h
 
@@ -384,39 +386,47 @@ end
 def Mixed (d t₀ t : List UInt8) : Prop :=
   t.length = d.length ∧ ∀ i : Nat, t[i]? = t₀[i]? ∨ t[i]? = d[i]?
 
-theorem Mixed.writeAt {d t₀ t : List UInt8} {off : Nat} {bytes : List UInt8} (h : Mixed d t₀ t)
-    (hl : TrueLeaf d off bytes) : Mixed d t₀ (writeAt t off bytes) := by
-  obtain ⟨h1, h2, h3⟩ := hl.spec
-  obtain ⟨hlen, hpos⟩ := h
+theorem writeAt_getElem? {t bytes : List UInt8} {off : Nat} (h : off ≤ t.length) (i : Nat) :
+    (writeAt t off bytes)[i]? =
+      if i < off then t[i]? else if i < off + bytes.length then bytes[i - off]? else t[i]? := by
   have hno : ¬ t.length < off := by omega
   simp only [Bao.writeAt, hno, if_false]
-  constructor
-  · simp only [List.length_append, List.length_take, List.length_drop]; omega
-  · intro i
-    rcases hpos i with hi | hi
-    all_goals
-      simp only [List.getElem?_append, List.length_append, List.length_take, List.getElem?_take,
-        List.getElem?_drop]
-      by_cases c1 : i < off
-      · have : i < min off t.length + bytes.length := by omega
-        have c1' : i < min off t.length := by omega
-        simp [this, c1', c1, hi]
-      · by_cases c2 : i < off + bytes.length
-        · have : i < min off t.length + bytes.length := by omega
-          have c1' : ¬ i < min off t.length := by omega
-          have hm : min off t.length = off := by omega
-          simp only [this, c1', if_true, if_false]
-          right
-          rw [h3, List.getElem?_take, List.getElem?_drop, hm]
-          have : i - off < bytes.length := by omega
-          simp only [this, if_true]
-          congr 1; omega
-        · have : ¬ i < min off t.length + bytes.length := by omega
-          have hm : min off t.length = off := by omega
-          simp only [this, if_false, hm]
-          have : off + bytes.length + (i - (off + bytes.length)) = i := by omega
-          rw [this]
-          first | exact .inl hi | exact .inr hi
+  simp only [List.getElem?_append, List.length_append, List.length_take, List.getElem?_take,
+    List.getElem?_drop]
+  have hm : min off t.length = off := by omega
+  rw [hm]
+  by_cases c1 : i < off
+  · have : i < off + bytes.length := by omega
+    simp only [c1, this, if_true]
+  · by_cases c2 : i < off + bytes.length
+    · simp only [c1, c2, if_true, if_false]
+    · simp only [c1, c2, if_false]
+      congr 1; omega
+
+theorem writeAt_length {t bytes : List UInt8} {off : Nat} (h : off + bytes.length ≤ t.length) :
+    (writeAt t off bytes).length = t.length := by
+  have hno : ¬ t.length < off := by omega
+  simp only [Bao.writeAt, hno, if_false, List.length_append, List.length_take, List.length_drop]
+  omega
+
+theorem Mixed.writeAt {d t₀ t : List UInt8} {off : Nat} {bytes : List UInt8} (h : Mixed d t₀ t)
+    (hl : TrueLeaf d off bytes) : Mixed d t₀ (writeAt t off bytes) := by
+  obtain ⟨_, h2, h3⟩ := hl.spec
+  obtain ⟨hlen, hpos⟩ := h
+  refine ⟨by rw [writeAt_length (by omega), hlen], fun i => ?_⟩
+  rw [writeAt_getElem? (by omega)]
+  by_cases c1 : i < off
+  · simp only [c1, if_true]; exact hpos i
+  · by_cases c2 : i < off + bytes.length
+    · simp only [c1, c2, if_true, if_false]
+      right
+      have hlt : i - off < bytes.length := by omega
+      have hb : bytes[i - off]? = ((d.drop off).take bytes.length)[i - off]? :=
+        congrArg (·[i - off]?) h3
+      rw [hb, List.getElem?_take, List.getElem?_drop]
+      simp only [hlt, if_true]
+      congr 1; omega
+    · simp only [c1, c2, if_false]; exact hpos i
 
 theorem Mixed.applyWrites {d t₀ : List UInt8} : ∀ (wl : List (Nat × List UInt8)) (t : List UInt8),
     Mixed d t₀ t → (∀ w ∈ wl, TrueLeaf d w.1 w.2) → Mixed d t₀ (applyWrites t wl) := by
